@@ -137,6 +137,25 @@ pub fn context_variants() -> Vec<(Vec<Inst>, Shape)> {
         p.extend(f2.iter().cloned());
         out.push((p, Shape { id: format!("{}:in-second-function", s.id), inst: s.inst.clone() }));
     }
+    // a function is begun FIRST; the numeric type is declared after that (inside it), then a value of it and the consumer:
+    // declarations are tracked wherever they stand
+    for (wn, decl, lit) in [
+        ("u64", Inst::new("TypeInt", None, Some(70), vec![Arg::Lit32(64), Arg::Lit32(0)]), Arg::Lit64(0x8000_0000_0000_0001)),
+        ("f64", Inst::new("TypeFloat", None, Some(70), vec![Arg::Lit32(64)]), Arg::Lit64(0x4000_0000_0000_0001)),
+    ] {
+        let und = Inst::new("Undef", Some(70), Some(74), vec![]);
+        let cst = Inst::new("Constant", Some(70), Some(72), vec![lit.clone()]);
+        let sw = Inst::new("Switch", None, None, vec![Arg::IdRef(74), Arg::IdRef(40), lit.clone(), Arg::IdRef(41)]);
+        for (pn, pre) in [("function", vec![f1[0].clone()]), ("function+label", vec![f1[0].clone(), f1[1].clone()]), ("two-functions", vec![f1[0].clone(), f1[1].clone(), f1[2].clone(), f1[3].clone(), f2[0].clone(), f2[1].clone()])] {
+            let mut p = pre.clone();
+            p.push(decl.clone());
+            out.push((p.clone(), Shape { id: format!("Constant:{}:type-declared-after-{}", wn, pn), inst: cst.clone() }));
+            p.push(und.clone());
+            if wn == "u64" {
+                out.push((p.clone(), Shape { id: format!("Switch:{}:type-declared-after-{}", wn, pn), inst: sw.clone() }));
+            }
+        }
+    }
     // a numeric type that is USED before it is declared (the lookup of its id misses: the literal is one word), then
     // declared, then used again directly afterwards and once more later: what an id resolves to is decided by the
     // declarations seen so far, not by what an earlier lookup of the same id answered
